@@ -234,6 +234,26 @@ CLAIMED.update({
             "DESIGN.md 5 C20"),
 })
 
+CLAIMED.update({
+    "C08": ("model_checking",
+            "GrammarGen.tla runs the reference grammar forwards (generator within recogniser model-checked); Printer.tla models the "
+            "serializer's layout engine and states what its output must look like (LayoutOK; MustSeparate validated against "
+            "LexGrammar). Random derivations with varied literals, explicit-query placement variants, corpus and parsing mutants are "
+            "serialized under 18 configurations by the real code, re-parsed, compared, re-serialized; TLC (Trace_RoundTrip) checks "
+            "every line incl. the layout of the real output's token / ignored-text items.",
+            "AST equality is the code's PartialEq; prefixes of spaces / tabs up to length 2, levels 0, 1, 3. One known finding "
+            "(schema definition without root operations, a consequence of the C05 finding).",
+            "TLA+ grammar-as-generator + layout state machine model-checked by TLC; TLC trace validation of recorded round trips and output layout",
+            "DESIGN.md 5 C08"),
+    "C19": ("model_checking",
+            "The Trace_RoundTrip monitor on typed values: every valid document among C17's seeds and mutants, field sets and mixed "
+            "(schema + document) texts, serialized from the typed value under 18 configurations, re-parsed and re-validated against "
+            "the same schema, compared, re-serialized.",
+            "Equality is the code's PartialEq; one fixed schema for documents and field sets, corpus for mixed texts.",
+            "TLC trace validation of recorded typed round trips (documents generated from the ExecRules abstract model)",
+            "DESIGN.md 5 C19"),
+})
+
 NOT_APPLICABLE = {}
 
 ALL = ["C%02d" % i for i in range(1, 34)]
